@@ -242,6 +242,10 @@ def _actions(ctx):
 def _escape_table(ctx):
     try:
         sp = T.extract_unescape(ctx.model)
+    except T.MultiPass as e:
+        from . import _zinc
+        _zinc.multipass(ctx, 'C03.D1', e, 'reading a string literal')
+        return
     except (Unsupported, AnalysisError) as e:
         ctx.error('C03.D1', '_unescape: %s' % e)
         return
@@ -395,12 +399,31 @@ def _framing(ctx):
                       'parse("") raises ZincParseException instead of returning None / []: the empty string is handed '
                       'to the grid grammar', 'empty input is not filtered out before grid parsing', file=FR,
                       line=pp.lineno, engine='E6')
-    # (iv) single / multiple
-    if 'if single:\n        if grids:\n            return grids[0]\n        else:\n            return None\n    else:\n        return grids' in text:
-        ctx.ob('C03.D3', 'single=True gives the first grid (None when there is none), single=False the list', True, where)
-    else:
-        ctx.violation('C03.D3', '%s::parse' % FR, 'single handling', 'parse(doc, single=True) does not return the first grid',
-                      'result shaping for `single` changed', file=FR, line=pp.lineno, engine='E9')
+    # (iv) single / multiple (path-based; shared with C09.D5 / C05.D2)
+    from . import _parse
+    try:
+        r = _parse.result_shaping(m)
+        good = r['single_nonempty'] <= {'FIRST', 'FIRST1'} and r['single_nonempty'] and r['single_empty'] == {'NONE'} \
+            and r['multi'] == {'ALL'}
+        if good:
+            ctx.ob('C03.D3', 'single=True gives the first grid (None when there is none), single=False the list of all '
+                             'grids in document order (%d returning paths)' % r['n_paths'], True, where)
+        else:
+            bad = [(k, f) for k in ('single_nonempty', 'single_empty', 'multi') for f in r[k]
+                   if f not in {'single_nonempty': ('FIRST', 'FIRST1'), 'single_empty': ('NONE',), 'multi': ('ALL',)}[k]]
+            node = r['nodes'][bad[0]] if bad else pp
+            ctx.violation('C03.D3', '%s::parse' % FR, norm(node),
+                          'parse(doc, single=%s) on %s returns %s' % ('False' if bad and bad[0][0] == 'multi' else 'True',
+                                                                      'an empty document' if bad and bad[0][0] == 'single_empty'
+                                                                      else 'a well-formed document',
+                                                                      {'ALL': 'the list of grids', 'NONE': 'None',
+                                                                       'OTHER-ELEMENT': 'another grid than the first',
+                                                                       'FIRST': 'the first grid', 'FIRST1': 'the first grid'}.get(
+                                                                          bad[0][1] if bad else '', '?')),
+                          'result shaping for `single` is %s' % {k: sorted(r[k]) for k in ('single_nonempty', 'single_empty', 'multi')},
+                          file=FR, line=node.lineno, engine='E6')
+    except (AnalysisError, Unsupported) as e:
+        ctx.error('C03.D3', 'result shaping: %s' % e)
 
 
 def _version_sniff(ctx):
